@@ -710,7 +710,9 @@ def r7(ctx):
     rm = f.body("engine::state::NamespaceStates::remove")
     ctx.touch(rm)
     callers = sorted({b.rec.get("root") or b.path for b in f.bodies.values() for _, t in b.calls() if callee_matches(t, r"engine::state::NamespaceStates::remove$")})
-    ctx.check(callers and all(re.search(r"LiveActor(::<D>)?::leave(::\{closure#0\})?$", c) for c in callers), "C11.R7", rm.path, "document-slots-discarded-only-by-leave", "NamespaceStates::remove is called from %s" % callers, rm.sp)
+    leave_roots = {p for p in f.bodies if re.search(r"LiveActor(::<D>)?::leave(::\{closure#0\})?$", p)}
+    ctx.check(bool(callers) and bool(leave_roots) and all(c in leave_roots or f.only_reached_from(c, leave_roots) for c in callers), "C11.R7", rm.path, "document-slots-discarded-only-by-leave",
+              "NamespaceStates::remove is called from %s (leave, or a helper only leave calls)" % callers, rm.sp)
     ctx.floor("C11.R7", 2)
 
 
